@@ -153,6 +153,16 @@ Theorem solver_exists : ∀ T free asm, closed T → acyclic T → free_nodes T 
 Proof. exact bf_solve_ok. Qed.
 Print Assumptions solver_exists.
 
+(* the oracle's certificate (Run_C11.cert_static / cert_val): an accepted node order makes the recorded graph closed and acyclic,
+   the list-level check implies consistency, and then the simulated valuation is THE consistent valuation for its inputs *)
+Theorem certificate : ∀ (nodes : list node) (free : list string) (a v w : val),
+  wf_order nodes = true → free_nodes (Cases.mk_g nodes) = list_to_set free →
+  lnodes_okb nodes v = true → eq_on free v a = true →
+  consistent (Cases.mk_g nodes) v ∧
+  (consistent (Cases.mk_g nodes) w → (∀ s, s ∈ free → w s = a s) → agrees (dom (Cases.mk_g nodes)) w v).
+Proof. exact certificate_sound. Qed.
+Print Assumptions certificate.
+
 Ltac by_bool := match goal with |- ?P => apply (bool_decide_eq_true_1 P); vm_compute; reflexivity end.
 
 (* ---- non-vacuity: concrete circuits satisfy the hypotheses; the transform models produce the shapes ---- *)
